@@ -6,8 +6,10 @@ Hand transcription (tie H) of `dispatching.partitionAlgorithm` (`partition.go`) 
 command-processor model: the dispatchers of `C09_Disp.lean` with `alg = partitionAlgorithm`, all of
 them placing on the one shared `CUResourcePoolImpl` (`List CU`, `reserve` / `free` of `C09_Res.lean`).
 
-* `StartNewKernel`: `numWG`, `numWGPerPartition = (numWG−1)/numCU + 1` (0 CUs: integer divide by zero →
-  `fault:div0`), one grid builder per CU skipped to `i·per`, `currWGs` all nil, `numDispatchedWG = 0`;
+* `StartDispatching` (repair 91eb1bb3): the first work-group must fit some CU of the pool when that CU is
+  empty, otherwise panic → `fault:oversize` (0 CUs: nothing fits).
+* `StartNewKernel`: `numWG`, `numWGPerPartition = (numWG−1)/numCU + 1` (0 CUs and an empty grid: integer
+  divide by zero → `fault:div0`), one grid builder per CU skipped to `i·per`, `currWGs` all nil, `numDispatchedWG = 0`;
   **`nextPartition` is not reset** (it survives from the previous kernel).
 * `Next`: `allWGDispatched` guard, the loop `for index := range partitions` with
   `i = (index + nextPartition) % len(partitions)`, `nextWG(i)` (own pending / next work-group of partition
@@ -284,8 +286,10 @@ def pStartDispatching (cfg : Cfg) (numCU : Nat) (d : PDisp) (k : Kern) : PDisp :
 /-- `findAvailableDispatcher` -/
 def pFindAvailable (ds : List PDisp) : Option Nat := ds.findIdx? (·.kern.isNone)
 
-/-- `cpMiddleware.Handle` for a launch request at the head of `ToDriver`; with an empty pool
-    `StartNewKernel` divides by zero -/
+/-- `cpMiddleware.Handle` for a launch request at the head of `ToDriver`. `StartDispatching` first
+    checks that the first work-group fits some CU of the pool when that CU is empty (`launchFits`,
+    panic → `fault:oversize`; any CU of the pool, although `partition` later ties a work-group to the CU
+    of its partition); with an empty pool and an empty grid `StartNewKernel` divides by zero -/
 def pHandleLaunch (cp : PCP) : PCP × Bool :=
   match cp.drvIn with
   | [] => (cp, false)
@@ -293,6 +297,8 @@ def pHandleLaunch (cp : PCP) : PCP × Bool :=
     match pFindAvailable cp.disps with
     | none => (cp, false)
     | some i =>
+      -- `mustBeAbleToPlaceWorkGroups` comes before `StartNewKernel` (with no CU nothing fits)
+      if !launchFits cp.pool k then ({ cp with fault := some "oversize" }, false) else
       if cp.pool.length = 0 then ({ cp with fault := some "div0" }, false) else
       (({ cp with drvIn := rest }).setDisp i (pStartDispatching cp.cfg cp.pool.length (cp.disp i) k), true)
 
